@@ -479,7 +479,7 @@ func ruleBgCancellable(c *Ctx, r *R, names ...string) {
 
 // ctxBlockingHelper: a module function that takes a context and blocks only in selects that have a Done() arm of that context.
 func ctxBlockingHelper(c *Ctx, cal *ssa.Function) bool {
-	if cal == nil || cal.Blocks == nil || !c.inModule(cal) || cal.Parent() != nil {
+	if c == nil || cal == nil || cal.Blocks == nil || !c.inModule(cal) || cal.Parent() != nil {
 		return false
 	}
 	p := ctxParam(cal)
